@@ -133,7 +133,7 @@ def main(argv=None):
             env["VERIF_DIR"] = VERIF
             legs.append((L, run.Leg(exe, L["name"], tier, seed, lw, repo,
                                     batch=L.get("batch", 256), lsan=L.get("lsan", False),
-                                    timeout=L.get("timeout", 120 if tier == "quick" else 600),
+                                    timeout=L.get("timeout", 45 if tier == "quick" else 240),
                                     known=list(known), extra_env=env)))
 
         # valgrind memcheck passes (thorough tier): reduced workload on an uninstrumented build,
